@@ -530,6 +530,17 @@ def indent(text, pad="  "):
 
 
 def main():
+    try:
+        translate()
+    except BaseException as exc:
+        # fail closed: no stale kernels from an earlier run may stay behind for Proofs/RefineGenP.v to be checked
+        # against; an empty file makes the three equality obligations (and what is built on them) fail to build
+        msg = f"{type(exc).__name__}: {exc}".replace("*)", "* )").replace("(*", "( *")
+        emit("RefineKernels", f"(* TRANSLATION FAILED, nothing generated:\n   {msg}\n*)\n", [])
+        raise
+
+
+def translate():
     rdir = os.path.join(REPO, "pandora", "refinement")
     vfit, s1 = translate_method(os.path.join(rdir, "vfit.py"), "vfit")
     quad, s2 = translate_method(os.path.join(rdir, "quadratic.py"), "quadratic")
